@@ -431,10 +431,12 @@ func runScenario(s scenario) result {
 		full = c.ChanCap
 	}
 	closeReturned := int32(0)
+	var acceptedDone int64
 	submit := func(x submission, attempts *int64, pi int) {
 		job := mkJob(x.Job)
 		sLo := atomic.LoadInt64(&started)
 		rLo := atomic.LoadInt64(&rejectedDone)
+		aLo := atomic.LoadInt64(&acceptedDone)
 		atomic.AddInt64(&submitsStarted, 1)
 		if n := atomic.AddInt64(attempts, 1); int(n) >= s.Phases[pi].GateAfter {
 			openGate(pi)
@@ -483,6 +485,13 @@ func runScenario(s scenario) result {
 			atomic.StoreInt32(&status[x.Job], stMaybe)
 		case err == nil:
 			atomic.StoreInt32(&status[x.Job], stAccepted)
+			atomic.AddInt64(&acceptedDone, 1)
+			// "a full job queue yields ErrWorkerPoolJobQueueIsFull": the jobs accepted before this call began,
+			// plus this one, minus everything that has started by now, minus the jobs workers may hold between
+			// the queue and their start, were all in the queue at the moment this one was accepted
+			if held := aLo + 1 - atomic.LoadInt64(&started) - int64(c.Max+2); held > int64(c.ChanCap+c.Buffer) {
+				fail("C09/full-not-reported", "job %d was accepted although at least %d accepted jobs were waiting in a job queue that holds %d (channel %d + buffer %d)", x.Job, held-1, c.ChanCap+c.Buffer, c.ChanCap, c.Buffer)
+			}
 			if wasClosed {
 				fail("C09/accepted-after-close", "job %d submitted after Close() returned was accepted", x.Job)
 			}
